@@ -7,7 +7,7 @@ from .. import prog as P
 from .. import terms as T
 from .. import spec as S
 from ..rules import bound as B
-from ..rules import rel, sig
+from ..rules import rel, sig, reach
 from . import c05
 from witness import winst
 
@@ -156,6 +156,74 @@ def compare3(chk, db):
         chk.sample({"rule": "CMP3", "function": astx.sig(f), "worlds": n})
 
 
+NUL_SENSITIVE = {"strlen", "strcmp", "strncmp", "strchr", "strrchr", "strstr", "strspn", "strcspn", "strpbrk", "strcpy", "strncpy",
+                 "strcat", "strncat", "wcslen", "wcscmp", "wcsncmp", "wcschr", "str_length", "strcoll"}
+
+
+def nul_sink(q):
+    return q.split("::")[-1] in NUL_SENSITIVE
+
+
+def takes_c_string(f):
+    """an overload that receives a null-terminated string: a character pointer that is not followed by a length"""
+    ps = f["params"]
+    for i, p0 in enumerate(ps):
+        ty = p0["ty"].replace(" ", "")
+        if ty in ("constChar*", "const_pointer", "etl::basic_string_view::const_pointer", "etl::basic_inplace_string::const_pointer",
+                  "constchar_type*") or ty.endswith("const_pointer"):
+            rest = [q["n"] for q in ps[i + 1:]]
+            if not any(n in ("count", "n", "len", "length", "size", "count2") for n in rest):
+                return True
+    return False
+
+
+def nulfree_rule(chk, db, record, floor):
+    """NULFREE: counted operations never reach a routine that stops at a null character; only the overloads that receive a
+    null-terminated string may measure it, and only through traits_type::length."""
+    n = 0
+    length_q = reach.TRAITS_RECORD + "::length"
+    entries = [f for f in db.funcs if f.get("record") == record and f.get("body") is not None and f.get("access", "public") == "public"]
+    traits = [f for f in db.funcs if f.get("record") == reach.TRAITS_RECORD and f.get("body") is not None and f["n"] != "length"]
+    for f in entries + (traits if record == VIEW else []):
+        construct = astx.sig(f)
+        cstr = takes_c_string(f) and f.get("record") == record
+        chk.instance("NULFREE")
+        n += 1
+        # the overloads for null-terminated strings may reach length(); nothing may reach the C routines otherwise
+        paths = reach.reach(db, f, lambda q: nul_sink(q) or q == length_q, stop=lambda q: False)
+        bad = []
+        for pth in paths:
+            sink = pth[-1]
+            if sink == length_q:
+                if cstr:
+                    continue
+                # reaching length() through an overload that itself takes a null-terminated string is that overload's business
+                inner = [x for x in pth[1:-1]]
+                if any(_sig_takes_c_string(db, x) for x in inner):
+                    continue
+                bad.append(pth)
+            else:
+                # the C routine below traits_type::length is length's implementation
+                if len(pth) >= 2 and pth[-2].startswith(length_q + "("):
+                    if cstr or any(_sig_takes_c_string(db, x) for x in pth[1:-2]):
+                        continue
+                bad.append(pth)
+        chk.obligation("NULFREE", construct, not bad, evaluations=max(1, len(paths)))
+        for pth in bad[:2]:
+            chk.violation("NULFREE", construct, "nul-sensitive", "%s: a counted operation reaches `%s`, which stops at the first null character: %s" % (
+                astx.loc(f), pth[-1], " -> ".join(x.split("(")[0] for x in pth)), {"where": astx.loc(f), "path": list(pth)})
+    if n < floor:
+        chk.analysis_broken("NULFREE: only %d entry points of %s (floor %d)" % (n, record, floor))
+
+
+def _sig_takes_c_string(db, sig_text):
+    q = sig_text.split("(")[0]
+    for g in db.by_q.get(q, []):
+        if astx.sig(g) == sig_text:
+            return takes_c_string(g)
+    return False
+
+
 def run(chk, tier):
     db = D.load("checks")
     plain = D.load("plain")
@@ -166,6 +234,7 @@ def run(chk, tier):
     if n < 11:
         chk.analysis_broken("REL: only %d string_view operators modelled" % n)
     compare3(chk, db)
+    nulfree_rule(chk, db, VIEW, 60)
     # BOUND over every public member (plain configuration: bounds must hold without relying on a check firing)
     svf = [f for f in plain.funcs_of_record(VIEW) if f.get("kind") == "method" and f.get("access") == "public"]
     if len(svf) < 40:
